@@ -46,7 +46,7 @@ func replayInput(family, src string) map[string]string {
 }
 
 func Run(c *core.Ctx) {
-	c.Rule = "inputs of parser.ParseString: every .templ file of the repository, the string literals of parser/v2/*_test.go and the txtar test data (raw and wrapped in a templ body), hand-written probes, their truncations, structure-aware mutations (token insert/delete/duplicate/swap, span delete, delimiter imbalance, byte replace, CRLF conversion, multi-byte text before expressions / in strings / in comment lines, blank lines, indentation), thorough: every truncation and coverage-guided random bytes; distinct non-trivial = distinct inputs (by SHA-1) that parse, generate and gofmt and carry at least one recorded range judged by the extracted predicate, plus distinct inputs rejected with a positioned error"
+	c.Rule = "inputs of parser.ParseString: every .templ file of the repository, the string literals of parser/v2/*_test.go and the txtar test data (raw and wrapped in a templ body), hand-written probes, their truncations, structure-aware mutations (token insert/delete/duplicate/swap, span delete, delimiter imbalance, byte replace, CRLF conversion, multi-byte text before expressions / in strings / in comment lines, blank lines, indentation), keyword layouts (29 forms - if / else if / for / switch / case / default / call / string, go-code, attribute, bool-attribute, spread and conditional-attribute expressions / templ, css, script headers / go blocks - with a hole after every keyword, operator, comma, semicolon, opening delimiter and before every closing token; each hole filled with each of 22 separators - none, blanks, tab, LF, CRLF, CR, indented continuation lines, block / multi-line / multi-byte / line comments, NBSP - one at a time exhaustively, then several forms per file with random separators behind multi-byte / CRLF prologues, then the blanks of the repository templates replaced), thorough: every truncation and coverage-guided random bytes; distinct non-trivial = distinct inputs (by SHA-1) that parse, generate and gofmt and carry at least one recorded range judged by the extracted predicate, plus distinct inputs rejected with a positioned error"
 	c.Trusted = append(c.Trusted,
 		"specification spec/PosOf.v (pos_of, range_ok, name_range_ok) - what a faithful position is",
 		"extraction: ExtrOcamlBasic only; ocaml/driver.ml (hex line protocol)",
